@@ -88,6 +88,26 @@ impl SimCase {
 }
 
 pub fn gen_trace(r: &mut Xo, max_lines: usize) -> Vec<(u64, bool)> {
+    if max_lines >= 12 && r.chance(1, 6) {
+        // steady streams: evenly paced traffic (no bursts), one or both directions, so that the rate
+        // limit derived from the trace is tight
+        let n = r.range(12, max_lines.max(13) as u64) as usize;
+        let gap = *r.pick(&[40u64, 55, 60, 75, 90, 99, 100, 101, 120, 250]) * 1_000_000;
+        let jitter = *r.pick(&[0u64, 1, 1_000, 1_000_000]);
+        let mode = r.below(3);
+        let mut t = r.range(0, 3) * 1_000_000;
+        let mut v = vec![];
+        for i in 0..n {
+            let dir = match mode {
+                0 => i % 2 == 0,
+                1 => r.chance(1, 2),
+                _ => true,
+            };
+            v.push((t, dir));
+            t += gap + r.below(jitter + 1);
+        }
+        return v;
+    }
     let n = r.range(1, max_lines as u64) as usize;
     let mut t: u64 = if r.chance(1, 2) { 0 } else { r.range(0, 5_000_000) };
     let mut v = vec![];
